@@ -7,6 +7,7 @@ import (
 	"go/ast"
 	"go/token"
 	"go/types"
+	"os"
 	"strings"
 )
 
@@ -369,6 +370,68 @@ func (x *Exec) entryVars(fr *Frame) map[string]Value {
 	return entryVarsMap[x.frames[0]]
 }
 
+// checkAnchors: every loop and call site named by the contract must exist in the current source, and the function
+// must still have the number of loops the contract was written for (panics with an engine error otherwise).
+func checkAnchors(fi *FuncInfo, sp *FuncSpec) {
+	nloops := 0
+	calls := map[string]bool{}
+	ast.Inspect(fi.Decl.Body, func(n ast.Node) bool {
+		switch v := n.(type) {
+		case *ast.ForStmt, *ast.RangeStmt:
+			nloops++
+		case *ast.CallExpr:
+			calls[exprText(v.Fun)] = true
+			if se, ok := unparen(v.Fun).(*ast.SelectorExpr); ok {
+				calls["*."+se.Sel.Name] = true
+			}
+			if len(v.Args) > 0 && fi.Pkg.P.TypesInfo != nil {
+				if tv, ok := fi.Pkg.P.TypesInfo.Types[v.Args[0]]; ok {
+					if n := typeName(pointee(tv.Type)); n != "" {
+						calls[exprText(v.Fun)+"<"+n+">"] = true
+						if se, ok := unparen(v.Fun).(*ast.SelectorExpr); ok {
+							calls["*."+se.Sel.Name+"<"+n+">"] = true
+						}
+					}
+				}
+			}
+		}
+		return true
+	})
+	if os.Getenv("GOVC_LISTLOOPS") != "" {
+		fmt.Printf("LOOPS %s %s %d\n", fi.Pkg.Name, fi.Key, nloops)
+	}
+	if sp.LoopCountSet && sp.LoopCount != nloops {
+		panic(engineErr("the contract was written for %d loops but the function has %d: loop ordinals no longer name the same loops (anchor lost)", sp.LoopCount, nloops))
+	}
+	for ord := range sp.Loops {
+		if ord > nloops {
+			panic(engineErr("contract names loop %d but the function has %d loops (anchor lost)", ord, nloops))
+		}
+	}
+	for callee := range sp.AtCall {
+		if !calls[callee] {
+			panic(engineErr("contract names the call site %q which no longer exists (anchor lost)", callee))
+		}
+	}
+}
+
+// InlineAnchorError checks the anchors of a contract whose function is not verified on its own (inline functions).
+func InlineAnchorError(fi *FuncInfo) (err error) {
+	defer func() {
+		if r := recover(); r != nil {
+			if ee, ok := r.(*EngineError); ok {
+				err = fmt.Errorf("%s.%s: %s", fi.Pkg.Name, fi.Key, ee.Msg)
+				return
+			}
+			panic(r)
+		}
+	}()
+	if fi.Spec != nil && fi.Decl != nil && fi.Decl.Body != nil {
+		checkAnchors(fi, fi.Spec)
+	}
+	return nil
+}
+
 func VerifyFunc(w *World, fi *FuncInfo) (res *FuncResult) {
 	x := newExec(w, fi.Pkg, fi)
 	res = &FuncResult{Func: fi}
@@ -385,38 +448,7 @@ func VerifyFunc(w *World, fi *FuncInfo) (res *FuncResult) {
 	if sp == nil {
 		sp = &FuncSpec{Key: fi.Key, Loops: map[int]*LoopSpec{}, AtCall: map[string]*CallSpec{}, Wraps: map[string]bool{}, WrapsIf: map[string]ast.Expr{}}
 	}
-	// anchors: every loop and call site named by the contract must exist in the current source
-	nloops := 0
-	calls := map[string]bool{}
-	ast.Inspect(fi.Decl.Body, func(n ast.Node) bool {
-		switch v := n.(type) {
-		case *ast.ForStmt, *ast.RangeStmt:
-			nloops++
-		case *ast.CallExpr:
-			calls[exprText(v.Fun)] = true
-			if se, ok := unparen(v.Fun).(*ast.SelectorExpr); ok {
-				calls["*."+se.Sel.Name] = true
-			}
-			if len(v.Args) > 0 && fi.Pkg.P.TypesInfo != nil {
-				if tv, ok := fi.Pkg.P.TypesInfo.Types[v.Args[0]]; ok {
-					if n := typeName(pointee(tv.Type)); n != "" {
-						calls[exprText(v.Fun)+"<"+n+">"] = true
-					}
-				}
-			}
-		}
-		return true
-	})
-	for ord := range sp.Loops {
-		if ord > nloops {
-			panic(engineErr("contract names loop %d but the function has %d loops (anchor lost)", ord, nloops))
-		}
-	}
-	for callee := range sp.AtCall {
-		if !calls[callee] {
-			panic(engineErr("contract names the call site %q which no longer exists (anchor lost)", callee))
-		}
-	}
+	checkAnchors(fi, sp)
 	fr := x.newFrame(fi)
 	x.frames = []*Frame{fr}
 	st := newState()
